@@ -196,6 +196,15 @@ func (p *Prog) isCancelChan(f *Func, e ast.Expr) bool {
 		if isDone {
 			return true
 		}
+		// a local of the enclosing function that only a defer of that function
+		// closes: it is closed when the function has returned
+		root := f
+		for root.Parent != nil {
+			root = root.Parent
+		}
+		if p.abandonChans(root)[v] != nil {
+			return true
+		}
 	}
 	ln := strings.ToLower(name)
 	return strings.Contains(ln, "done") || strings.Contains(ln, "quit") || strings.Contains(ln, "close")
